@@ -35,15 +35,19 @@ ASSUMPTIONS = [
     "(ruamel itself folds U+0085 NEL to a blank; not an armi property); NaN is not generated",
     "verbosity/branchVerbosity/moduleVerbosity values are restricted to valid log levels and userPlugins is never a "
     "non-empty list when a file is read (reading applies them as process-wide side effects)",
-    "voluptuous, ruamel.yaml and the Python float repr are trusted",
+    "voluptuous, ruamel.yaml and the Python float repr are trusted (second-generation texts are compared with rel 1e-12 on floats: "
+    "ruamel re-formats the ScalarFloat objects of its round-trip loader and may move the last digits)",
+    "dated old names are classified with today's date exactly as SettingRenamer does (the App defines none; the synthetic ones use "
+    "2000-01-01 and 9999-12-31); the unknown-key prompt is answered through a replaced sys.stdin in interactive mode",
 ]
 
 # Confirmed defects of the unchanged tree (AUTHORING rule 3): the generators avoid the triggering shape while the
 # entry is True and count the avoided draws with a label `excluded:<signature>`; `execute` is never weakened.
 EXCLUDE_KNOWN = {
-    "renames/old-name-not-applied-by-reader": True,
-    "defaults/default-rejected-by-own-schema": True,
-    "documents/userPlugins-none-crashes-file-read": True,
+    # all three were repaired in /repo (fix: commits 8c98ef0, 2950948, 883b0fa): the shapes are searched again
+    "renames/old-name-not-applied-by-reader": False,
+    "defaults/default-rejected-by-own-schema": False,
+    "documents/userPlugins-none-crashes-file-read": False,
 }
 SIG_RENAME = "renames/old-name-not-applied-by-reader"
 SIG_DEFAULT = "defaults/default-rejected-by-own-schema"
@@ -700,12 +704,61 @@ def _assign_checked(out, cs, ref, ch, part):
                      lambda: "setting %s: schema admits %r but assignment raised %r" % (name, value, raised)):
             out.check(psame(after, plain(exp)), "%s/stored-value-differs-from-schema-result" % part,
                       lambda: "setting %s: assigned %r, stored %r, schema gives %r" % (name, value, after, plain(exp)))
+            kind = info["spec"]["t"]
+            if e == "valid" and kind in ("xs", "tight", "cycles"):
+                want = _nested_expected(kind, _detuple(value))
+                out.check(_nested_matches(kind, after, want), "%s/nested-value-not-stored-as-given" % part,
+                          lambda: "setting %s: assigned %r, stored %r, documented normalisation gives %r" % (name, value, after, want))
         return raised is None
     if out.check(raised is not None, "%s/invalid-value-accepted" % part,
                  lambda: "setting %s: schema rejects %r (%r) but assignment succeeded, stored %r" % (name, value, exp, after)):
         out.check(psame(after, before), "%s/invalid-value-changed-setting" % part,
                   lambda: "setting %s: rejected value %r left %r in place of the previous %r" % (name, value, after, before))
     return False
+
+
+# what a well-formed nested value must be stored as (independent of the armi validators; documented normalisations only:
+# empty / None entries are dropped, numbers are coerced to the documented type)
+_XS_INT = ("numInternalRings", "numExternalRings", "xsMaxAtomNumber")
+_XS_FLOAT = ("meshSubdivisionsPerCm", "xsPriority", "minDriverDensity", "traceIsotopeThreshold")
+_XS_ATTR_DEFAULTS = {"averageByComponent": False, "minDriverDensity": 0.0, "ductHeterogeneous": False, "traceIsotopeThreshold": 0.0,
+                     "xsTempIsotope": "U238"}
+
+
+def _nested_expected(kind, value):
+    if kind == "tight":
+        return {k: {"parameter": o["parameter"], "convergence": float(o["convergence"])} for k, o in value.items() if o}
+    if kind == "cycles":
+        conv = {"step days": lambda l: [str(x) for x in l], "power fractions": lambda l: [str(x) for x in l], "availability factor": float,
+                "cycle length": float, "burn steps": int}
+        return [{k: conv.get(k, lambda x: x)(x) for k, x in c.items()} for c in value]
+    res = {}
+    for xsid, opts in value.items():
+        given = {k: x for k, x in (opts or {}).items() if k != "xsID" and x is not None}
+        if not given:
+            continue
+        attrs = {"xsID": xsid}
+        for k, x in given.items():
+            attrs[k] = int(x) if k in _XS_INT else float(x) if k in _XS_FLOAT else x
+        res[xsid] = attrs
+    return res
+
+
+def _nested_matches(kind, stored, want):
+    """stored: plain() snapshot of the setting value."""
+    if kind != "xs":
+        return psame(stored, want)
+    if not isinstance(stored, dict) or set(stored) != set(want):
+        return False
+    for xsid, attrs in want.items():
+        have = _unxs(stored[xsid])
+        for k, x in have.items():
+            exp = attrs[k] if k in attrs else _XS_ATTR_DEFAULTS.get(k)
+            if not psame(x, exp):
+                return False
+        if set(attrs) - set(have):
+            return False
+    return True
 
 
 def _pdefaults():
